@@ -347,11 +347,11 @@ def R(name, args, bound):
 
 
 PROPS = {
-    'C01': {'legs': [V('book')], 'design': '§5 C01'},
-    'C02': {'legs': [V('book')], 'design': '§5 C02'},
-    'C03': {'legs': [V('book')], 'design': '§5 C03'},
-    'C04': {'legs': [V('book')], 'design': '§5 C04'},
-    'C06': {'legs': [V('book')], 'design': '§5 C06'},
+    'C01': {'legs': [V('book'), V('hist')], 'design': '§5 C01'},
+    'C02': {'legs': [V('book'), V('hist')], 'design': '§5 C02'},
+    'C03': {'legs': [V('book'), V('hist')], 'design': '§5 C03'},
+    'C04': {'legs': [V('book'), V('hist')], 'design': '§5 C04'},
+    'C06': {'legs': [V('book'), V('hist')], 'design': '§5 C06'},
     'C07': {'legs': [V('book'), V('market'),
                      R('truncation', ['truncate'], 'snapshots of 4 generated states, compact and pretty: every byte prefix must be rejected by load_json with Err (no panic, no Ok)'),
                      R('market_round_trip', ['market-snapshot'], '60 random two-asset markets (per-asset ticks, trading toggled, crossed books while trading is off): in-memory and through-file (compact / pretty, written over a longer existing file) reloads show the same orders, trades and market data and stay equal under a 10-operation continuation'),
@@ -365,11 +365,15 @@ PROPS = {
                        note='Env::step without the precondition that the batch is no longer than the step size')], 'design': '§5 C05'},
     # C12 quantifies over arbitrary modify prices: the grid clause of modify_order is checked without an on-grid precondition in a variant
     'C08': {'legs': [V('env'), V('menv')], 'design': '§5 C08'},
+    # C09, the contract-expressible part (runner threading, progress-bar branches, step's use of the generator) + a bounded stand-in across OS processes
+    'C09': {'legs': [V('runner', canary=False, note='the runners have no preconditions (nothing to be vacuous about)'), V('env', tags=['C09']), V('menv', tags=['C09']),
+                     R('determinism', ['determinism'], '4 compositions of the built-in agents through the derive macros (single-asset: momentum + noise + random, two noise sets; two-asset: random + noise + momentum + random; ticks 1 / 2 / 5), 6 seeds each, 40-80 steps through the real sim_runner / market_sim_runner: the digest of every order, trade, recorded series and per-step traded volume is compared between two runs in one process, a run in a SEPARATE OS process, and a run in a separate process through the progress-bar branch; the seeds of a composition must not all give the same run; every run must produce orders')],
+            'design': '§5 C09'},
     'C10': {'legs': [V('env'), V('menv'), V('book'), V('market')], 'design': '§5 C10'},
     'C11': {'legs': [V('env'), V('menv'), V('book')], 'design': '§5 C11'},
     'C12': {'legs': [V('book'), V('market'), V('env'), V('menv'), V('book', variant='c12', defines={'defs': ['finding_c12']}, only_fns=['OrderBook::modify_order'], canary=False,
                                   note='modify_order with the unconditional grid clause (expected refutation, known finding)')], 'design': '§5 C12'},
-    'C13': {'legs': [V('book'), V('market'), V('env'), V('menv')], 'design': '§5 C13'},
+    'C13': {'legs': [V('book'), V('market'), V('env'), V('menv'), V('hist')], 'design': '§5 C13'},
     'C14': {'legs': [V('market'), V('menv')], 'design': '§5 C14'},
     'C16': {'legs': [V('agents')], 'design': '§5 C16'},
     'C17': {'legs': [V('agents')], 'design': '§5 C17'},
@@ -576,11 +580,14 @@ def run_canaries(leg, pid, log):
         raise Undecided('verus front end on canary unit %s: %s' % (u.label, res['frontend_error']))
     tagset = set(leg.get('tags') or [pid])
     want = [f['name'] for f in u.meta['functions'] if f.get('canary') and tagset & set(ob.tag_props(f.get('tags') or []))]
+    want += [name for (name, tags, text) in getattr(u.vc, 'corollaries', []) if tagset & set(ob.tag_props(tags))]
     hit = set()
     for d in res['diagnostics']:
         for s in d['spans']:
             if s['origin'].get('kind') == 'canary' and 'assertion failed' in d['message']:
                 hit.add(s['origin'].get('fn'))
+            elif '[canary]' in (s.get('text') or '') and 'assertion failed' in d['message']:
+                hit.add(ob.ghost_fn_at(u.gen_lines, s['gen_line']))
     vacuous = [w for w in want if w not in hit]
     return {'expected_to_fail': len(want), 'failed_as_expected': len(want) - len(vacuous), 'vacuous': vacuous, 'wall_s': res.get('wall_s'), 'cache_hit': res.get('cache_hit')}
 
@@ -877,6 +884,24 @@ MARKET_SEARCH_PROPS = {'C12', 'C13', 'C14'}
 def witness_search(pid, new, tier, seed, replay_path):
     """After a Verus refutation: look for a concrete failing history on the real code (never changes the verdict).
     Book-level histories for obligations of the book / market units, environment-level histories for the env units."""
+    if pid == 'C09':
+        b = build_replay()
+        if not b:
+            return None
+        cmd = [b, 'determinism', '--seed', str(seed)]
+        p = subprocess.run(cmd, capture_output=True, text=True)
+        if p.returncode == 1:
+            try:
+                w = json.loads(p.stdout.strip().split('\n')[-1])
+            except Exception:
+                return None
+            doc = json.load(open(replay_path))
+            doc['witness'] = w
+            doc['witness_cmd'] = ' '.join(cmd)
+            doc['note'] += '; witness = complete simulations through the real runners whose digests disagree between runs / processes / progress-bar branches'
+            json.dump(doc, open(replay_path, 'w'), indent=1)
+            return w
+        return None
     if pid in ('C16', 'C17'):
         b = build_replay()
         if not b:
